@@ -227,7 +227,18 @@ def lib_errors_new(run, st, args, ins):
     return Iface(False, "error")
 
 
+def lib_once_do(run, st, args, ins):
+    """(*sync.Once).Do(f): assumed contract (T-lib) -- f has run to completion exactly once before Do returns;
+    modelled by applying the contract of the function literal"""
+    f = args[1]
+    if not isinstance(f, FuncV):
+        raise Unsupported("Once.Do of a non-literal function")
+    fake = {"fn": {"k": "func", "n": f.name}, "args": [], "pos": ins.get("pos", ""), "reg": None}
+    return apply_contract(run, st, f.name, list(f.bindings), fake)
+
+
 LIB = {
+    "(*sync.Once).Do": lib_once_do,
     "math/bits.Mul64": lib_mul64,
     "math/bits.Add64": lib_add64,
     "math/bits.Sub64": lib_sub64,
@@ -264,7 +275,7 @@ def apply_contract(run, st, name, args, ins, bindings=None):
     # case splits requested by the callee's contract: the caller's path is forked so that the
     # split expression is concrete on each branch (the call instruction is re-executed)
     for kind, txt in c.other:
-        if kind != "casesplit":
+        if kind != "casesplit" or (run.mode == "group" and c.mode != "group"):
             continue
         m = re.match(r"^(.*)\s+in\s+(-?\d+)\s*\.\.\s*(-?\d+)$", txt)
         if m:
@@ -306,7 +317,12 @@ def apply_contract(run, st, name, args, ins, bindings=None):
         s2.assume(b)
         run.at_panic(s2, ins)
         st.assume(mk_not(b))
-    for i, (lab, ast, txt) in enumerate(c.requires):
+    gview = run.mode == "group" and c.mode != "group" and (c.gensures or c.grequires)
+    c_requires = c.grequires if gview else c.requires
+    c_ensures = c.gensures if gview else c.ensures
+    if gview:
+        run.V.bridges_used.add(cname)
+    for i, (lab, ast, txt) in enumerate(c_requires):
         g = ev0.bool(ast)
         run.add_named(st, "pre", "pre.%s.%s" % (cname.split(".")[-1] if False else short(cname), lab or str(i + 1)), site, g, "precondition of %s: %s" % (cname, txt))
         st.assume(g)
@@ -332,7 +348,7 @@ def apply_contract(run, st, name, args, ins, bindings=None):
     rts = callee["results"]
     evh0 = Evaluator(run, st, pre_mem, env, phase="pre")
     evh0.pkg = c.pkg
-    hints = result_hints(c, evh0)
+    hints = result_hints(c, evh0, c_ensures)
     for i, rt in enumerate(rts):
         rname = "result" if len(rts) == 1 else "result%d" % i
         k = prog.kind(rt)
@@ -412,7 +428,7 @@ def apply_contract(run, st, name, args, ins, bindings=None):
     ev1 = Evaluator(run, st, pre_mem, env2, phase="post", assigned=assigned_names(c), assume=True)
     ev1.havocked = havocked
     ev1.pkg = c.pkg
-    for lab, ast, txt in c.ensures:
+    for lab, ast, txt in c_ensures:
         st.assume(ev1.bool(ast))
     st.pending = {}
     if len(results) == 0:
@@ -461,10 +477,10 @@ def active_conjuncts(ast, ev):
     return out
 
 
-def result_hints(c, ev):
+def result_hints(c, ev, ensures=None):
     """scan of ensures clauses of the form  result == e | fresh(result) | len(result) == n | isnil(result1) <==> e"""
     hints = {}
-    for lab, ast, txt in c.ensures:
+    for lab, ast, txt in (ensures if ensures is not None else c.ensures):
         for cj in active_conjuncts(ast, ev):
             if cj[0] == "bin" and cj[1] == "==":
                 a, b = cj[2], cj[3]
